@@ -33,6 +33,18 @@ rewritten code.  Each rewrite states the condition under which it is exact.
      x.__invert__() -> ~x;  list(itertools.repeat(a, n)) -> [a] * n;
      f(**{'k': v}) -> f(k=v);  boolean formulas over `x is None` atoms -> truth table
  I10 if c: A ; S else: B ; S   ->   if c: A else: B ; S     (common last statement)
+I11 flattening an array nobody else holds (F a fresh np.array/np.zeros/... call):
+     F.flatten(), F.ravel(), F.reshape((-1,)), F.reshape((-1, 1)).flatten() -> F.reshape(-1);
+     len(E.reshape(-1)) -> E.reshape(-1).shape[0]
+I12 any(a != b for ..) -> not all(a == b for ..) and the dual (==/!=, is/is not, in/not in only)
+I13 constant arrays: np.zeros(S).astype(T) / np.ones(S).astype(T) -> dtype=T;
+     np.ones(S[, dtype=T]) * c, c * np.ones(..), np.full(S, a) * c -> np.full(S, c') when the product
+     has the type np.full gives (integer T and integer c; floating T; no T = float64)
+I14 conditional expressions: X if c else X -> X (c pure and call-free);
+     A if c1 else (A if c2 else B) -> A if c1 or c2 else B;  (A if c2 else B) if c1 else B -> A if c1 and c2 else B
+I15 x = A ; if c: x = B  ->  x = B if c else A   (A total; c, B do not read x)
+I16 in a boolean context, for a local bound only to list displays / comprehensions / list() / sorted():
+     0 < len(L), len(L) != 0 -> L ;  len(L) == 0 -> not L
 """
 import ast
 import copy
@@ -299,6 +311,10 @@ class Idioms:
         class T(ast.NodeTransformer):
             def visit_BinOp(self, node):
                 self.generic_visit(node)
+                sc = _scaled_constant_array(node)
+                if sc is not None:
+                    outer.changed = True
+                    return ast.copy_location(sc, node)
                 if isinstance(node.op, ast.Add) and isinstance(node.right, ast.Constant) and isinstance(node.right.value, str):
                     if isinstance(node.left, ast.Constant) and isinstance(node.left.value, str):
                         outer.changed = True
@@ -346,6 +362,36 @@ class Idioms:
                     outer.changed = True
                     return ast.copy_location(ast.UnaryOp(op=ast.Invert(), operand=node.func.value), node)
                 cn = call_name(node) or ''
+                flat = _flat_of_fresh(node)
+                if flat is not None:
+                    outer.changed = True
+                    return ast.copy_location(flat, node)
+                # any(a != b for ...) -> not all(a == b for ...)   (same elements evaluated, same stopping point)
+                if cn == 'any' and len(node.args) == 1 and not node.keywords and isinstance(node.args[0], ast.GeneratorExp):
+                    neg = _negate(node.args[0].elt)
+                    if neg is not None and isinstance(node.args[0].elt, ast.Compare) and \
+                            isinstance(node.args[0].elt.ops[0], (ast.NotEq, ast.IsNot, ast.NotIn)):
+                        g = ast.GeneratorExp(elt=neg, generators=node.args[0].generators)
+                        outer.changed = True
+                        return ast.copy_location(ast.UnaryOp(op=ast.Not(), operand=ast.Call(
+                            func=ast.Name(id='all', ctx=ast.Load()), args=[g], keywords=[])), node)
+                if cn == 'all' and len(node.args) == 1 and not node.keywords and isinstance(node.args[0], ast.GeneratorExp):
+                    neg = _negate(node.args[0].elt)
+                    if neg is not None and isinstance(node.args[0].elt, ast.Compare) and \
+                            isinstance(node.args[0].elt.ops[0], (ast.NotEq, ast.IsNot, ast.NotIn)):
+                        g = ast.GeneratorExp(elt=neg, generators=node.args[0].generators)
+                        outer.changed = True
+                        return ast.copy_location(ast.UnaryOp(op=ast.Not(), operand=ast.Call(
+                            func=ast.Name(id='any', ctx=ast.Load()), args=[g], keywords=[])), node)
+                ctor = _ctor_astype(node)
+                if ctor is not None:
+                    outer.changed = True
+                    return ast.copy_location(ctor, node)
+                if cn == 'len' and len(node.args) == 1 and not node.keywords and _is_flat_view(node.args[0]):
+                    # len(E.reshape(-1)) -> E.reshape(-1).shape[0]   (the operand is 1-D by construction)
+                    outer.changed = True
+                    return ast.copy_location(ast.Subscript(value=ast.Attribute(value=node.args[0], attr='shape', ctx=ast.Load()),
+                                                           slice=ast.Constant(value=0), ctx=ast.Load()), node)
                 if cn == 'len' and len(node.args) == 1 and not node.keywords and isinstance(node.args[0], ast.Attribute) \
                         and node.args[0].attr == 'shape':
                     outer.changed = True
@@ -409,6 +455,18 @@ class Idioms:
 
             def visit_IfExp(self, node):
                 self.generic_visit(node)
+                if ast.dump(node.body) == ast.dump(node.orelse) and outer.is_pure(node.test) and _call_free(node.test):
+                    outer.changed = True
+                    return node.body
+                # A if c1 else (A if c2 else B) -> A if (c1 or c2) else B ;  (A if c2 else B) if c1 else B -> A if (c1 and c2) else B
+                if isinstance(node.orelse, ast.IfExp) and ast.dump(node.body) == ast.dump(node.orelse.body):
+                    outer.changed = True
+                    return self.visit(ast.copy_location(ast.IfExp(test=_boolop(ast.Or(), node.test, node.orelse.test), body=node.body,
+                                                                  orelse=node.orelse.orelse), node))
+                if isinstance(node.body, ast.IfExp) and ast.dump(node.orelse) == ast.dump(node.body.orelse):
+                    outer.changed = True
+                    return self.visit(ast.copy_location(ast.IfExp(test=_boolop(ast.And(), node.test, node.body.test), body=node.body.body,
+                                                                  orelse=node.orelse), node))
                 t = _positive(node.test)
                 if t is not None:
                     node.test, node.body, node.orelse = t, node.orelse, node.body
@@ -464,6 +522,19 @@ class Idioms:
 
         for i, s in enumerate(fn.body):
             fn.body[i] = T().visit(s)
+        lists = _list_locals(fn, self.params)
+        if lists:
+            for n in ast.walk(fn):
+                if isinstance(n, (ast.If, ast.While, ast.IfExp)):
+                    before = ast.dump(n.test)
+                    n.test = _truthiness(n.test, lists)
+                    if ast.dump(n.test) != before:
+                        self.changed = True
+                elif isinstance(n, ast.Assert):
+                    before = ast.dump(n.test)
+                    n.test = _truthiness(n.test, lists)
+                    if ast.dump(n.test) != before:
+                        self.changed = True
 
     # ------------------------------------------------------------------ block level
     def block(self, stmts, root, loop=False):
@@ -566,6 +637,17 @@ class Idioms:
     def _at(self, stmts, i, root):
         s = stmts[i]
         nxt = stmts[i + 1] if i + 1 < len(stmts) else None
+
+        # x = A ; if c: x = B   ->   x = B if c else A      (A total, c and B do not read x)
+        if isinstance(s, ast.Assign) and len(s.targets) == 1 and isinstance(s.targets[0], ast.Name) and isinstance(nxt, ast.If) \
+                and not nxt.orelse and len(nxt.body) == 1 and isinstance(nxt.body[0], ast.Assign) and len(nxt.body[0].targets) == 1 \
+                and isinstance(nxt.body[0].targets[0], ast.Name) and nxt.body[0].targets[0].id == s.targets[0].id \
+                and self._local(s.targets[0].id) and _is_total(s.value, self.known_tuples) \
+                and s.targets[0].id not in (_names(nxt.test) | _names(nxt.body[0].value) | _names(s.value)):
+            new = ast.copy_location(ast.Assign(targets=[s.targets[0]], value=ast.IfExp(test=nxt.test, body=nxt.body[0].value,
+                                                                                      orelse=s.value)), s)
+            ast.fix_missing_locations(new)
+            return stmts[:i] + [new] + stmts[i + 2:]
 
         # I10 common last statement of both arms
         if isinstance(s, ast.If) and s.orelse and len(s.body) + len(s.orelse) > 2 \
@@ -969,6 +1051,242 @@ def _index_to_element(gen, body, outer):
     gen.target = ast.copy_location(ast.Name(id=e, ctx=ast.Store()), gen.target)
     gen.iter = X
     return R()
+
+
+def _call_free(e):
+    """Names, constants, attributes, subscripts, comparisons and boolean connectives of such: evaluating it has no effect, and it
+    raises only for operands of the wrong kind."""
+    return all(isinstance(n, (ast.Name, ast.Constant, ast.Attribute, ast.Subscript, ast.Compare, ast.BoolOp, ast.UnaryOp, ast.Tuple,
+                              ast.expr_context, ast.cmpop, ast.boolop, ast.unaryop, ast.Slice)) for n in ast.walk(e))
+
+
+def _list_locals(fn, params):
+    """Locals that are Python lists at every use: every binding is a list display, list comprehension, list(...) or sorted(...)."""
+    ok, bad = set(), set(params)
+    for n in ast.walk(fn):
+        if isinstance(n, ast.Assign):
+            for t in n.targets:
+                if isinstance(t, ast.Name):
+                    v = n.value
+                    if isinstance(v, (ast.List, ast.ListComp)) or (isinstance(v, ast.Call) and isinstance(v.func, ast.Name)
+                                                                     and v.func.id in ('list', 'sorted')):
+                        ok.add(t.id)
+                    else:
+                        bad.add(t.id)
+                else:
+                    bad |= set(target_names(t))
+        elif isinstance(n, (ast.For, ast.comprehension)):
+            bad |= set(target_names(n.target))
+        elif isinstance(n, (ast.AugAssign, ast.AnnAssign)) and isinstance(n.target, ast.Name):
+            if not (isinstance(n, ast.AugAssign) and isinstance(n.op, ast.Add)):
+                bad.add(n.target.id)
+        elif isinstance(n, (ast.With,)):
+            for it in n.items:
+                if it.optional_vars is not None:
+                    bad |= set(target_names(it.optional_vars))
+        elif isinstance(n, (ast.Global, ast.Nonlocal)):
+            bad |= set(n.names)
+        elif isinstance(n, ast.NamedExpr):
+            bad.add(n.target.id)
+        elif isinstance(n, ast.ExceptHandler) and n.name:
+            bad.add(n.name)
+        elif isinstance(n, (ast.Import, ast.ImportFrom)):
+            bad |= {(a.asname or a.name).split('.')[0] for a in n.names}
+    return ok - bad
+
+
+def _truthiness(test, lists):
+    """In a boolean context: 0 < len(L) / len(L) != 0 -> L ;  len(L) == 0 -> not L   for a Python list L."""
+    if isinstance(test, ast.BoolOp):
+        test.values = [_truthiness(v, lists) for v in test.values]
+        return test
+    if isinstance(test, ast.UnaryOp) and isinstance(test.op, ast.Not):
+        test.operand = _truthiness(test.operand, lists)
+        return test
+    if isinstance(test, ast.Compare) and len(test.ops) == 1:
+        l, r, op = test.left, test.comparators[0], test.ops[0]
+
+        def ln(x):
+            return x.args[0] if isinstance(x, ast.Call) and isinstance(x.func, ast.Name) and x.func.id == 'len' and len(x.args) == 1 \
+                and not x.keywords and isinstance(x.args[0], ast.Name) and x.args[0].id in lists else None
+
+        def k(x, v):
+            return isinstance(x, ast.Constant) and type(x.value) is int and x.value == v
+        pos = (ln(r) if (isinstance(op, (ast.Lt, ast.NotEq)) and k(l, 0)) or (isinstance(op, ast.LtE) and k(l, 1)) else None) or \
+              (ln(l) if (isinstance(op, (ast.Gt, ast.NotEq)) and k(r, 0)) or (isinstance(op, ast.GtE) and k(r, 1)) else None)
+        if pos is not None:
+            return ast.copy_location(ast.Name(id=pos.id, ctx=ast.Load()), test)
+        neg = (ln(r) if (isinstance(op, ast.Eq) and k(l, 0)) or (isinstance(op, ast.Gt) and k(l, 1)) or (isinstance(op, ast.GtE) and k(l, 0))
+               else None) or \
+              (ln(l) if (isinstance(op, ast.Eq) and k(r, 0)) or (isinstance(op, ast.Lt) and k(r, 1)) or (isinstance(op, ast.LtE) and k(r, 0))
+               else None)
+        if neg is not None:
+            return ast.copy_location(ast.UnaryOp(op=ast.Not(), operand=ast.Name(id=neg.id, ctx=ast.Load())), test)
+    return test
+
+
+def _boolop(op, a, b):
+    """a <op> b with nested operands of the same operator flattened (and/or are associative, evaluation order kept)."""
+    vals = []
+    for x in (a, b):
+        if isinstance(x, ast.BoolOp) and type(x.op) is type(op):
+            vals.extend(x.values)
+        else:
+            vals.append(x)
+    return ast.BoolOp(op=op, values=vals)
+
+
+_INT_T = {'int', 'np.int8', 'np.int16', 'np.int32', 'np.int64', 'np.intp', 'np.int_', 'np.uint8', 'np.uint16', 'np.uint32', 'np.uint64',
+          "'int'", "'int8'", "'int16'", "'int32'", "'int64'", "'uint8'", "'uint16'", "'uint32'", "'uint64'", "'i4'", "'i8'"}
+_FLOAT_T = {'float', 'np.float32', 'np.float64', 'np.double', 'np.float_', "'float'", "'float32'", "'float64'", "'f4'", "'f8'", "'d'"}
+_F64_T = {'float', 'np.float64', 'np.double', 'np.float_', "'float'", "'float64'", "'f8'", "'d'"}
+
+
+def _num_const(e):
+    """Value of a numeric literal expression (literals, unary minus, products, np.inf / np.nan), else None."""
+    if isinstance(e, ast.Constant) and type(e.value) in (int, float):
+        return e.value
+    if isinstance(e, ast.UnaryOp) and isinstance(e.op, ast.USub):
+        v = _num_const(e.operand)
+        return None if v is None else -v
+    if isinstance(e, ast.Attribute) and isinstance(e.value, ast.Name) and e.value.id in ('np', 'numpy', 'math'):
+        if e.attr in ('inf', 'Inf', 'infty', 'PINF'):
+            return float('inf')
+        if e.attr in ('nan', 'NaN', 'NAN'):
+            return float('nan')
+    if isinstance(e, ast.BinOp) and isinstance(e.op, ast.Mult):
+        a, b = _num_const(e.left), _num_const(e.right)
+        if a is not None and b is not None:
+            return a * b
+    return None
+
+
+def _const_node(v):
+    if isinstance(v, float) and v != v:
+        return ast.Attribute(value=ast.Name(id='np', ctx=ast.Load()), attr='nan', ctx=ast.Load())
+    if isinstance(v, float) and v in (float('inf'), float('-inf')):
+        inf = ast.Attribute(value=ast.Name(id='np', ctx=ast.Load()), attr='inf', ctx=ast.Load())
+        return inf if v > 0 else ast.UnaryOp(op=ast.USub(), operand=inf)
+    return ast.Constant(value=v)
+
+
+def _ctor_parts(e, names):
+    """(shape, dtype-or-None) of np.<names>(shape[, dtype]) written with any mix of positional / keyword arguments."""
+    if not (isinstance(e, ast.Call) and call_name_of(e.func) in names):
+        return None
+    kws = {k.arg: k.value for k in e.keywords}
+    if None in kws or len(e.args) > 2:
+        return None
+    for j, a in enumerate(e.args):
+        if ('shape', 'dtype')[j] in kws:
+            return None
+        kws[('shape', 'dtype')[j]] = a
+    if 'shape' not in kws or set(kws) - {'shape', 'dtype'}:
+        return None
+    return kws['shape'], kws.get('dtype')
+
+
+def _mk_call(name, **kws):
+    return ast.Call(func=ast.Attribute(value=ast.Name(id='np', ctx=ast.Load()), attr=name, ctx=ast.Load()), args=[],
+                    keywords=[ast.keyword(arg=k, value=v) for k, v in sorted(kws.items()) if v is not None])
+
+
+def _ctor_astype(node):
+    """np.zeros(S).astype(T) -> np.zeros(S, dtype=T)   (also np.ones): the cast of a constant array is that constant array."""
+    if isinstance(node.func, ast.Attribute) and node.func.attr == 'astype' and len(node.args) == 1 and not node.keywords:
+        p = _ctor_parts(node.func.value, ('np.zeros', 'np.ones'))
+        if p is not None and p[1] is None and ast.unparse(node.args[0]) in (_INT_T | _FLOAT_T | {'bool', 'np.bool_', "'bool'"}):
+            return _mk_call(call_name_of(node.func.value.func).split('.')[1], shape=p[0], dtype=node.args[0])
+    return None
+
+
+def _scaled_constant_array(node):
+    """np.ones(S[, dtype=T]) * c,  c * np.ones(...),  np.full(S, a[, dtype=T]) * c  ->  np.full(S, c' [, dtype=T])  when the
+    result type of the product is the type np.full gives: T integer and c an integer, T floating, or no T (float64; then the
+    fill value is written as a float and no dtype is kept)."""
+    if not isinstance(node.op, ast.Mult):
+        return None
+    for arr, c in ((node.left, node.right), (node.right, node.left)):
+        cv = _num_const(c)
+        if cv is None:
+            continue
+        base = 1
+        p = _ctor_parts(arr, ('np.ones',))
+        if p is None and isinstance(arr, ast.Call) and call_name_of(arr.func) == 'np.full':
+            kws = {k.arg: k.value for k in arr.keywords}
+            if not arr.args and set(kws) <= {'shape', 'fill_value', 'dtype'} and 'shape' in kws and 'fill_value' in kws:
+                base = _num_const(kws['fill_value'])
+                if base is not None:
+                    p = (kws['shape'], kws.get('dtype'))
+        if p is None or base is None:
+            continue
+        shape, dt = p
+        t = ast.unparse(dt) if dt is not None else None
+        if t is None and not (isinstance(base, float) or base == 1):
+            continue        # np.full(S, <int>) without dtype is an integer array
+        v = base * cv
+        if t is None or t in _F64_T:
+            return _mk_call('full', shape=shape, fill_value=_const_node(float(v)))
+        if t in _FLOAT_T:
+            return _mk_call('full', shape=shape, fill_value=_const_node(float(v)), dtype=dt)
+        if t in _INT_T and isinstance(cv, int) and isinstance(base, int):
+            return _mk_call('full', shape=shape, fill_value=_const_node(v), dtype=dt)
+    return None
+
+
+_FRESH_ARRAY = ('np.array', 'np.arange', 'np.zeros', 'np.ones', 'np.empty', 'np.full', 'np.concatenate', 'np.hstack')
+
+
+def _fresh_array(e):
+    """A call that returns a base ndarray nobody else holds."""
+    if not (isinstance(e, ast.Call) and call_name_of(e.func) in _FRESH_ARRAY):
+        return False
+    return not any(k.arg in ('copy', 'subok', 'out', 'like', None) for k in e.keywords)
+
+
+def _minus_one(e):
+    if isinstance(e, ast.UnaryOp) and isinstance(e.op, ast.USub) and isinstance(e.operand, ast.Constant) and e.operand.value == 1:
+        return True
+    return isinstance(e, ast.Constant) and e.value == -1 and type(e.value) is int
+
+
+def _is_flat_view(e):
+    """E.reshape(-1) / E.reshape((-1,)): 1-D whatever E is."""
+    if isinstance(e, ast.Call) and isinstance(e.func, ast.Attribute) and e.func.attr == 'reshape' and not e.keywords and len(e.args) == 1:
+        a = e.args[0]
+        return _minus_one(a) or (isinstance(a, ast.Tuple) and len(a.elts) == 1 and _minus_one(a.elts[0]))
+    return False
+
+
+def _flat_of_fresh(node):
+    """All the ways of flattening an array nobody else holds give the same private 1-D array (copy or view of a
+    temporary): F.flatten(), F.ravel(), F.reshape((-1,)), F.reshape((-1, 1)).flatten() ... -> F.reshape(-1)."""
+    if not (isinstance(node, ast.Call) and isinstance(node.func, ast.Attribute) and not node.keywords):
+        return None
+    a, v = node.func.attr, node.func.value
+
+    def column(x):
+        # F.reshape((-1, 1)) in the spelling of the normal form, or written out
+        if isinstance(x, ast.Call) and isinstance(x.func, ast.Name) and x.func.id == '__spelled_reshape' and len(x.args) == 1 \
+                and isinstance(x.args[0], ast.Subscript):
+            return x.args[0].value
+        if isinstance(x, ast.Call) and isinstance(x.func, ast.Attribute) and x.func.attr == 'reshape' and not x.keywords:
+            sh = x.args[0].elts if len(x.args) == 1 and isinstance(x.args[0], ast.Tuple) else x.args
+            if len(sh) == 2 and ((_minus_one(sh[0]) and isinstance(sh[1], ast.Constant) and sh[1].value == 1) or
+                                 (_minus_one(sh[1]) and isinstance(sh[0], ast.Constant) and sh[0].value == 1)):
+                return x.func.value
+        return None
+    base = None
+    if a in ('flatten', 'ravel') and not node.args:
+        base = column(v) if column(v) is not None else v
+        if _is_flat_view(base):
+            base = base.func.value
+    elif _is_flat_view(node) and not _minus_one(node.args[0]):
+        base = v
+    if base is None or not _fresh_array(base):
+        return None
+    return ast.Call(func=ast.Attribute(value=base, attr='reshape', ctx=ast.Load()),
+                    args=[ast.Constant(value=-1)], keywords=[])
 
 
 def _is_mask(e):
